@@ -450,6 +450,19 @@ func (w *world) outgoing(p *bparty, data []byte, bcast bool, to int) {
 			} else {
 				add(d, data, nil)
 			}
+		case "commit-lastbyte", "commit-firstbyte":
+			// a commitment that agrees with the hash of the key everywhere but in one byte
+			if tag == tagCommit {
+				c := append([]byte{}, data...)
+				if dv.kind == "commit-lastbyte" {
+					c[len(c)-1] ^= 1
+				} else {
+					c[1] ^= 1
+				}
+				add(d, c, nil)
+			} else {
+				add(d, data, nil)
+			}
 		case "empty-commit":
 			if tag == tagCommit && victim {
 				add(d, []byte{tagCommit}, nil)
@@ -849,7 +862,7 @@ func (w *world) collect(sc *jBScenario) {
 // ---------------------------------------------------------------- the catalogue
 var deviationKinds = []string{"offpoly", "wrongreveal", "wrongcommit", "revealfirst", "dupgood", "dupbad",
 	"withhold-share", "withhold-commit", "withhold-reveal", "trunc-share", "long-share", "trunc-reveal",
-	"trunc-reveal-then-good", "empty-share-first", "empty-commit", "junk"}
+	"trunc-reveal-then-good", "empty-share-first", "empty-commit", "commit-lastbyte", "commit-firstbyte", "junk"}
 
 func victimSets(p *prng, n, deviant int, all bool) []map[int]bool {
 	var honest []int
@@ -898,17 +911,20 @@ func runBackend(r *prng, thorough bool, only string) {
 				id++
 				emit(runBScenario(id, pkg, n, t, nil, r.next()))
 			}
-			for _, kind := range deviationKinds {
+			for ki, kind := range deviationKinds {
 				if only == "honest" {
 					break
+				}
+				if !thorough && t == n && ki%2 != n%2 {
+					continue // quick: for t = n (no cross-check to fool) (3,3) and (4,4) share the catalogue between them
 				}
 				if pkg == "ps" && kind == "long-share" {
 					continue
 				}
 				deviant := 1 + r.intn(n)
 				sets := victimSets(r, n, deviant, thorough && n <= 4)
-				if !thorough && !(n == 4 && t == 3) {
-					sets = sets[:1] // quick: both victim sets only for (4,3)
+				if !thorough {
+					sets = sets[:1] // quick: one victim set per deviation
 				}
 				for _, vs := range sets {
 					id++
